@@ -3,6 +3,7 @@ package props
 
 import (
 	"flag"
+	"runtime/debug"
 
 	"verifharness/internal/vf"
 )
@@ -19,3 +20,5 @@ func Setup() {
 		f()
 	}
 }
+
+func stackNow() []byte { return debug.Stack() }
